@@ -2,6 +2,8 @@ package checks
 
 import (
 	"fmt"
+	"os"
+	"path/filepath"
 	"sort"
 	"strings"
 
@@ -15,7 +17,7 @@ type c15Case struct {
 	classes []string   // class names
 	parents [][]string // parents[i] = parents of classes[i]
 	alias   int        // 0 none, 1 X->T, 2 X->Y,Y->T, 3 X->Y,Y->X (alias cycle; the variable is typed by X), 4 X->Y|Z, Y->X|Z, Z->X|Y (cycle through unions)
-	wrap    int        // 0 T, 1 T[], 2 table<string,T>
+	wrap    int        // 0 T, 1 T[], 2 table<string,T> (v["k"].), 3 table<number,T> (v[1].), 4 a class field of type table<string,T> (v.f.k.), 5 table<string,table<string,T>> (v.x.y.)
 	split   bool       // declarations in defs.lua, variable in main.lua
 	layout  int        // 0 class blocks separated by blank lines; 1 one contiguous comment block; 2 one file per class
 }
@@ -106,6 +108,18 @@ func (c c15Case) build() (files map[string]string, mainFile string, access strin
 	case 2:
 		typ = "table<string, " + typ + ">"
 		access = "v[\"k\"]."
+	case 3:
+		typ = "table<number, " + typ + ">"
+		access = "v[1]."
+	case 4:
+		add("---@class Holder")
+		add("---@field f table<string, " + typ + ">")
+		add("")
+		typ = "Holder"
+		access = "v.f.k."
+	case 5:
+		typ = "table<string, table<string, " + typ + ">>"
+		access = "v.x.y."
 	}
 	var use []string
 	use = append(use, "---@type "+typ, "local v = {}")
@@ -160,7 +174,7 @@ func c15Cases(tier string) []c15Case {
 	two := []string{"A", "B"}
 	for _, ps := range graphs(two) {
 		for alias := 0; alias < 5; alias++ {
-			for wrap := 0; wrap < 3; wrap++ {
+			for wrap := 0; wrap < 6; wrap++ {
 				for _, split := range []bool{false, true} {
 					for layout := 0; layout < 3; layout++ {
 						out = append(out, c15Case{two, ps, alias, wrap, split, layout})
@@ -178,7 +192,7 @@ func c15Cases(tier string) []c15Case {
 				out = append(out, c15Case{three, ps, 0, 0, split, layout})
 				if tier == "thorough" {
 					for alias := 0; alias < 5; alias++ {
-						for wrap := 0; wrap < 3; wrap++ {
+						for wrap := 0; wrap < 6; wrap++ {
 							if alias == 0 && wrap == 0 {
 								continue
 							}
@@ -314,6 +328,64 @@ func c15Space(tier string) *core.Space {
 					}
 				}
 			}
+			// history: the file of a direct parent class is deleted (watched-files event only). The hierarchy the members
+			// come from must follow: exactly the members reachable without that class remain
+			if c.layout == 2 && c.alias == 0 && c.wrap == 0 {
+				victim := ""
+				for _, p := range c.parents[0] {
+					if p != c.classes[0] {
+						victim = p
+						break
+					}
+				}
+				if victim != "" {
+					c2 := c15Case{classes: c.classes, alias: c.alias, wrap: c.wrap, split: c.split, layout: c.layout}
+					for k := range c.classes {
+						var ps []string
+						if c.classes[k] != victim {
+							for _, p := range c.parents[k] {
+								if p != victim {
+									ps = append(ps, p)
+								}
+							}
+						}
+						c2.parents = append(c2.parents, ps)
+					}
+					want2 := c2.expected()
+					delete(want2, c.fieldOf(victim))
+					vf := "class_" + strings.ToLower(victim) + ".lua"
+					os.Remove(filepath.Join(root, vf))
+					s.Watched([]drv.FileEvent{{Rel: vf, Type: 3}})
+					s.ChangeFull(mainFile, buf)
+					items2, err := s.Completion(mainFile, nLines, len("local q = "+access), ".")
+					r.Transitions += 3
+					if err == nil {
+						l2 := map[string]bool{}
+						for _, it := range items2 {
+							l2[it.Label] = true
+						}
+						var stale, lost []string
+						for _, n := range c.classes {
+							f := c.fieldOf(n)
+							if l2[f] && !want2[f] {
+								stale = append(stale, f)
+							}
+							if !l2[f] && want2[f] {
+								lost = append(lost, f)
+							}
+						}
+						sort.Strings(stale)
+						sort.Strings(lost)
+						if len(stale) > 0 {
+							fail("members-of-a-deleted-parent-class-still-offered", map[string]interface{}{"deleted_file": vf, "stale": stale, "offered": keys(l2)})
+						} else if len(lost) > 0 {
+							fail("members-lost-after-deleting-another-class-file", map[string]interface{}{"deleted_file": vf, "lost": lost, "offered": keys(l2)})
+						} else {
+							r.Outcome("members-follow-the-deletion")
+						}
+					}
+				}
+			}
 			if i%53 == 0 {
 				r.Sample(map[string]interface{}{"case": desc(c), "expected_members": keys(want), "offered": keys(labels)})
 			}
@@ -334,7 +406,7 @@ func init() {
 	core.Register(&core.Check{
 		ID:        "C15",
 		Technique: "bounded-exhaustive enumeration of class hierarchies (every parent-set assignment over 2 (quick) / 3 (thorough) classes, cycles and self-inheritance included) x alias shapes x wrapper types x file layouts on the real server against a cycle-safe transitive-closure model",
-		Rule: "classes A, B (, C) each with one field; every assignment of parent sets (16 / 512 graphs); aliases {none, X->A, X->Y->A, X->Y->X, X->Y|Z with Y->X|Z and Z->X|Y}; the variable typed by ---@type T, T[] or table<string,T>; declarations in the same file or in a second file; a member assigned through the variable. " +
+		Rule: "classes A, B (, C) each with one field; every assignment of parent sets (16 / 512 graphs); aliases {none, X->A, X->Y->A, X->Y->X, X->Y|Z with Y->X|Z and Z->X|Y}; the variable typed by ---@type T, T[], table<string,T>, table<number,T>, a class whose field is table<string,T>, or table<string,table<string,T>>; declarations in the same file or in a second file; a member assigned through the variable. " +
 			"member completion behind v. / v[1]. / v[\"k\"]. must offer exactly the fields of A and of all its ancestors (plus the assigned member), no field of an unrelated class; member go-to-definition must reach the ---@field line; cyclic hierarchies and alias cycles must neither crash nor hang (worker journal attributes them). " +
 			"states = cases judged; non-trivial = cases with inheritance or an alias",
 		Assumptions: []string{"other completion labels are ignored", "for the alias cycles (X->Y->X, and the cycle through unions) only liveness is required"},
